@@ -102,6 +102,10 @@ pub struct SimTls {
     pub rejected: Option<u64>,
     /// consultations of the stack-usage calculator about exactly those bytes, after the rejection
     pub calc_after_rejection: u64,
+    /// the execution in progress: (address of the AnyVm, engine, packet, metadata buffer) - for the
+    /// helper that re-enters the very same VM
+    pub cur_exec: Option<(usize, u8, Buf, Buf)>,
+    pub reenter_depth: u32,
 }
 
 thread_local! {
@@ -292,10 +296,43 @@ extern "C" fn h_probe_slot_body(r1: u64, doff: u64, eoff: u64, tag: u64, _e: u64
 }
 /// third argument of the stack probe helper: "run another eBPF program before you return"
 pub const REENTER: u64 = 0x5245;
+/// ... "execute the very program that is calling you once more, on the same VM and engine, before
+/// you return" (the VM types take `&self` for executions, except the fixed-metadata VM)
+pub const REENTER_SAME: u64 = 0x5246;
+/// ... "return the nesting depth times 0x11111111" (0 for an execution started by the harness)
+pub const GET_SALT: u64 = 0x5347;
 
 extern "C" fn h_probe_stack_body(p: u64, tag: u64, c: u64, _d: u64, _e: u64) -> u64 {
+    if c == GET_SALT {
+        return tls(|t| t.reenter_depth as u64 * 0x1111_1111);
+    }
     let v = unsafe { (p as *const u64).read_unaligned() };
     tls(|t| t.probe_stack = Some((v, tag)));
+    if c == REENTER_SAME {
+        let cur = tls(|t| if t.reenter_depth == 0 { t.cur_exec } else { None });
+        if let Some((vm, engine, pkt, mb)) = cur {
+            tls(|t| t.reenter_depth += 1);
+            // SAFETY of the experiment: the outer execution holds the VM through `&self` methods only
+            // (the fixed-metadata VM, whose executions take `&mut self`, is left out)
+            let vm = unsafe { &*(vm as *const AnyVm) };
+            let engine = Engine::ALL[engine as usize];
+            unsafe {
+                let _ = match (vm, engine) {
+                    (AnyVm::Mbuff(vm), Engine::Interp) => vm.execute_program(pkt.slice(), mb.slice()),
+                    (AnyVm::Mbuff(vm), Engine::Jit) => vm.execute_program_jit(pkt.slice(), mb.slice()),
+                    (AnyVm::Mbuff(vm), Engine::Cl) => vm.execute_program_cranelift(pkt.slice(), mb.slice()),
+                    (AnyVm::Raw(vm), Engine::Interp) => vm.execute_program(pkt.slice()),
+                    (AnyVm::Raw(vm), Engine::Jit) => vm.execute_program_jit(pkt.slice()),
+                    (AnyVm::Raw(vm), Engine::Cl) => vm.execute_program_cranelift(pkt.slice()),
+                    (AnyVm::NoData(vm), Engine::Interp) => vm.execute_program(),
+                    (AnyVm::NoData(vm), Engine::Jit) => vm.execute_program_jit(),
+                    (AnyVm::NoData(vm), Engine::Cl) => vm.execute_program_cranelift(),
+                    (AnyVm::Fixed(_), _) => Ok(0),
+                };
+            }
+            tls(|t| t.reenter_depth -= 1);
+        }
+    }
     if c == REENTER {
         // A helper may itself run eBPF programs (rbpf's own documentation suggests helpers that do
         // real work): a second VM executes, under the interpreter, a program that stores to every
@@ -379,6 +416,15 @@ pub fn calc_value(cid: u8, pc: usize, tag: u8) -> u16 {
         2 => 0,
         _ => 128 + (pc as u16 % 7) * 16 + (tag as u16 % 3) * 8,
     }
+}
+
+/// A second calculator function: the odd-numbered calculators are installed as THIS function (with
+/// their number as data), the even-numbered ones as `calc_fn`; for the same data the two give
+/// different answers, so a VM that swaps the data but keeps the old function is told apart.
+type CalcFn = fn(&[u8], usize, &mut dyn Any) -> u16;
+
+fn calc_fn_alt(prog: &[u8], pc: usize, data: &mut dyn Any) -> u16 {
+    calc_fn(prog, pc, data) + 8
 }
 
 fn calc_fn(prog: &[u8], pc: usize, data: &mut dyn Any) -> u16 {
@@ -509,10 +555,10 @@ impl AnyVm {
             guarded(|| {
                 let data: Box<dyn Any> = Box::new(cid);
                 match self {
-                    AnyVm::Mbuff(vm) => vm.set_stack_usage_calculator(calc_fn, data),
-                    AnyVm::Fixed(vm) => vm.set_stack_usage_calculator(calc_fn, data),
-                    AnyVm::Raw(vm) => vm.set_stack_usage_calculator(calc_fn, data),
-                    AnyVm::NoData(vm) => vm.set_stack_usage_calculator(calc_fn, data),
+                    AnyVm::Mbuff(vm) => vm.set_stack_usage_calculator((if cid % 2 == 1 { calc_fn_alt as CalcFn } else { calc_fn as CalcFn }), data),
+                    AnyVm::Fixed(vm) => vm.set_stack_usage_calculator((if cid % 2 == 1 { calc_fn_alt as CalcFn } else { calc_fn as CalcFn }), data),
+                    AnyVm::Raw(vm) => vm.set_stack_usage_calculator((if cid % 2 == 1 { calc_fn_alt as CalcFn } else { calc_fn as CalcFn }), data),
+                    AnyVm::NoData(vm) => vm.set_stack_usage_calculator((if cid % 2 == 1 { calc_fn_alt as CalcFn } else { calc_fn as CalcFn }), data),
                 }
             }),
             |_| 0,
@@ -546,6 +592,20 @@ impl AnyVm {
     /// Execute on caller-owned buffers. `mbuff` is only used by the Mbuff kind; `pkt` is ignored
     /// by NoData.
     pub fn exec(&mut self, engine: Engine, pkt: Buf, mbuff: Buf) -> Outcome {
+        let me = self as *const AnyVm as usize;
+        tls(|t| {
+            t.cur_exec = Some((me, engine as u8, pkt, mbuff));
+            t.reenter_depth = 0;
+        });
+        let r = self.exec_inner(engine, pkt, mbuff);
+        tls(|t| {
+            t.cur_exec = None;
+            t.reenter_depth = 0;
+        });
+        r
+    }
+
+    fn exec_inner(&mut self, engine: Engine, pkt: Buf, mbuff: Buf) -> Outcome {
         conv(
             guarded(|| unsafe {
                 match (self, engine) {
